@@ -366,6 +366,7 @@ def run_case(case):
 
     run_guarded(res, lambda: run.run(body))
     stats["decisions"] = run.decisions
+    dig.add_events(run.events)
     nontrivial = P["obs_changes"] > 0 and any(F.values())
     return finish(res, dig, stats, nontrivial)
 
